@@ -26,6 +26,7 @@ type Case struct {
 	Bad    int  // slot receiving a non-finite value (-1 none)
 	BadV   int  // 0 NaN, 1 +Inf, 2 -Inf
 	Closed bool // every ring / line of >= 3 vertices gets its first vertex repeated at the end
+	Many   int  `json:",omitempty"` // > 0: a geometry of the skeleton's kind with this many members (vertices for flat kinds)
 }
 
 var otherGeom = geom.MultiLineString{{{X: 123456.5, Y: -2}, {X: 3, Y: 4}, {X: 5, Y: 6.25}}, {{X: 7, Y: 8}}}
@@ -49,6 +50,41 @@ func build(c Case) geom.Geom {
 		}
 		i++
 		return v
+	}
+	if c.Many > 0 {
+		pt := func() geom.Point { x := val(); y := val(); return geom.Point{X: x, Y: y} }
+		switch c.Skel.Kind {
+		case geomgen.KMultiPoint:
+			o := make(geom.MultiPoint, c.Many)
+			for k := range o {
+				o[k] = pt()
+			}
+			return o
+		case geomgen.KLineString:
+			o := make(geom.LineString, c.Many)
+			for k := range o {
+				o[k] = pt()
+			}
+			return o
+		case geomgen.KMultiLineString:
+			o := make(geom.MultiLineString, c.Many)
+			for k := range o {
+				o[k] = geom.LineString{pt(), pt()}
+			}
+			return o
+		case geomgen.KPolygon:
+			o := make(geom.Polygon, c.Many)
+			for k := range o {
+				o[k] = geom.Path{pt(), pt(), pt()}
+			}
+			return o
+		default:
+			o := make(geom.MultiPolygon, c.Many)
+			for k := range o {
+				o[k] = geom.Polygon{{pt(), pt(), pt()}}
+			}
+			return o
+		}
 	}
 	g := geomgen.Build(c.Skel, func() geom.Point { x := val(); y := val(); return geom.Point{X: x, Y: y} })
 	if c.Closed {
@@ -280,7 +316,7 @@ func main() {
 		return
 	}
 	r := report.New("C06", tier, "model_checking")
-	r.Rule = "E1: every structure tree of the six GeoJSON types with 1..3 members (first member non-empty, later members possibly empty), lengths 0..2(3) x every rotation of 19 finite float64 patterns (full product for points; every ordered pattern pair alternating between neighbouring vertices) : Encode text re-read with json.Number into a generic tree must be {type, coordinates} nested exactly as the type requires with [x,y] literals parsing bit-exactly; Decode(Encode(g)) bit-identical, also with every ring / line of >= 3 vertices closed by repeating its first vertex; the bytes returned by Encode unchanged by a later Encode call; each single coordinate slot replaced by NaN/+Inf/-Inf must make Encode fail; unsupported types rejected. Non-trivial = geometries with >= 2 members."
+	r.Rule = "E1: every structure tree of the six GeoJSON types with 1..3 members (first member non-empty, later members possibly empty), lengths 0..2(3) x every rotation of 19 finite float64 patterns (full product for points; every ordered pattern pair alternating between neighbouring vertices) : Encode text re-read with json.Number into a generic tree must be {type, coordinates} nested exactly as the type requires with [x,y] literals parsing bit-exactly; Decode(Encode(g)) bit-identical, also with every ring / line of >= 3 vertices closed by repeating its first vertex; the bytes returned by Encode unchanged by a later Encode call; each single coordinate slot replaced by NaN/+Inf/-Inf must make Encode fail; unsupported types rejected; geometries of 63..1000 members / vertices. Non-trivial = geometries with >= 2 members."
 	cfg := geomgen.Config{MaxMembers: 3, Lens: []int{0, 1, 2, 3}, FlatMax: 3, PolyRings: 2}
 	if tier == "thorough" {
 		cfg = geomgen.Config{MaxMembers: 3, Lens: []int{0, 1, 2, 3}, FlatMax: 4, PolyRings: 3}
@@ -389,6 +425,21 @@ func main() {
 			r.Violation(fmt.Sprintf("unsupported-type-accepted|%T", g), string(enc))
 		}
 		n++
+	}
+	// many members: counts around 64 and beyond (a decoder or encoder may switch
+	// strategy with the size)
+	for _, kind := range []geomgen.Kind{geomgen.KLineString, geomgen.KMultiLineString, geomgen.KPolygon, geomgen.KMultiPolygon, geomgen.KMultiPoint} {
+		for _, sz := range []int{63, 64, 65, 100, 257, 1000} {
+			c := Case{Skel: geomgen.Skel{Kind: kind}, Rot: sz % 19, Many: sz, Bad: -1}
+			n++
+			nontrivial++
+			if sym, det := check(c); sym != "" {
+				if len(det) > 300 {
+					det = det[:300]
+				}
+				r.Violation(fmt.Sprintf("%s|%s|many-members", sym, kind), map[string]interface{}{"case": c, "observed": det})
+			}
+		}
 	}
 	if r.Expired() {
 		r.Cap("wall budget expired")
